@@ -137,7 +137,7 @@ fn main() {
             }
         }
     }
-    let nrand = ctx.budget(300, 6000);
+    let nrand = ctx.cbudget(300, 6000);
     for k in 0..nrand {
         if let Some(mut rng) = ctx.random_case() {
             let len = rng.range_usize(2, 70);
@@ -155,7 +155,7 @@ fn main() {
             }
         }
     }
-    let nlong = ctx.budget(4, 40);
+    let nlong = ctx.cbudget(4, 40);
     for k in 0..nlong {
         if let Some(mut rng) = ctx.random_case() {
             let len = rng.range_usize(3000, if ctx.thorough() { 40000 } else { 8000 });
